@@ -4,9 +4,9 @@ import json
 import os
 import time
 import traceback
-from typing import Any, Dict, List, Optional, Tuple
+from typing import Any, Dict
 
-from vf import corpus, harness, instances, jschema
+from vf import harness, instances, jschema
 from vf.checks import c11
 
 RULE = (
@@ -23,6 +23,14 @@ RULE = (
     "[4*ceil(min/3), 4*ceil(max/3)], item-level tightenings by descendants (never "
     "recognised); distinct_nontrivial = distinct (model, class, property, twin kind)"
 )
+
+
+MINIMA = {
+    "valid_documents": (80, 1000),
+    "constraint_twins_judged": (150, 2500),
+    "constraint_twins_pure": (100, 2000),
+    "structural_twins_judged": (600, 10000),
+}
 
 
 def constraint_twins(chk: harness.Check, op: jschema.Opened, maker: jschema.TwinMaker,
@@ -216,8 +224,12 @@ def worker(args) -> Dict[str, Any]:
     for idx, (name, text, _) in enumerate(mine):
         limit = chk.t0 + 0.8 * budget if text is None else deadline
         if time.time() > limit:
-            chk.count("models_skipped_for_budget")
-            continue
+            if text is None and not c11.share_met(chk, MINIMA, tuple(MINIMA), n_shards) and time.time() < chk.t0 + chk.pick(3.0, 1.5) * budget:
+                limit = chk.t0 + chk.pick(3.0, 1.5) * budget
+                chk.count("models_run_past_the_budget_to_reach_minimum_counts")
+            else:
+                chk.count("models_skipped_for_budget")
+                continue
         if text is None:
             index = int(name.rsplit("/", 1)[1])
             m = jschema.generate_model(chk.rng("model", index), index)
@@ -246,10 +258,8 @@ def main(argv) -> int:
                 chk.merge(job.result())
             except Exception as err:
                 chk.harness_error(f"worker failed: {err!r}\n{traceback.format_exc()[-1500:]}")
-    chk.require_min("valid_documents", chk.pick(100, 2000))
-    chk.require_min("constraint_twins_judged", chk.pick(200, 5000))
-    chk.require_min("constraint_twins_pure", chk.pick(150, 4000))
-    chk.require_min("structural_twins_judged", chk.pick(800, 20000))
+    for counter, (quick, thorough) in MINIMA.items():
+        chk.require_min(counter, chk.pick(quick, thorough))
     chk.assume("the expected constraints are those in the documented forms: len(self.p) <op> k in both operand orders, pattern-function calls (single or and-joined), optionally guarded on the *same* property; a guard on another property makes the constraint conditional and is not expected to be enforced")
     chk.assume("a twin is judged only after Python itself evaluates the targeted invariant to not-True on it")
     chk.assume("documents the schema already rejects are C11's business and are skipped here")
